@@ -21,7 +21,11 @@ RULE = ("seeded generator. Codec: EncodePunchPacket on valid/invalid types and m
         "length-window boundaries. Demux: histories over a scripted net.PacketConn (adds incl. invalid/overwriting/shared metadata, "
         "removes, batches of punch/other-attempt/removed-attempt/damaged/QUIC-like/STUN/near-STUN datagrams, injected read errors, "
         "unusable source addresses, short read buffers, event-buffer overflow, drains). ServerPuncher: add/remove/dispatch histories in a "
-        "synctest bubble. Thorough adds concurrent add/remove while reading under -race, linearised and replayed through the model. "
+        "synctest bubble, attempt ids in lower/upper/mixed-case spellings (incl. two spellings of one id registered side by side and the "
+        "nonce text used as id, as app/cmd/server.go does); full ServerPuncher.Respond runs (registration, hello ticker, completion by a "
+        "hello/ack of the attempt, by timeout or by cancellation, duplicate and other-spelling registrations while in flight) followed by "
+        "late/retransmitted punch packets of the finished attempt plus a marker datagram (must come out of ReadFrom byte-identical, in order) "
+        "and by re-registration of the same id (must succeed, and its packets are withheld again). Thorough adds concurrent add/remove while reading under -race, linearised and replayed through the model. "
         "Every Go result is compared (a) with the Coq model inside the kernel and (b) with an independent python/hashlib reference. "
         "Non-trivial = a packet that decodes, a near miss (damaged/cross-attempt/window boundary), or a history in which at least one "
         "datagram is withheld and one is passed. Distinct = distinct JSON case.")
@@ -831,7 +835,7 @@ def violations_of(cases, outs):
             why = py_verdict(c, o)
         if not why:
             continue
-        key = c.get("k", "") + ":" + re.sub(r"\d+", "#", re.sub(r"\[.*", "", why))[:70]
+        key = c.get("k", "") + ":" + re.sub(r"\d+", "#", re.sub(r"\[.*", "", re.sub(r'"[^"]*"', '"_"', re.sub(r"'[^']*'", "'_'", why))))[:70]
         if key in seen:
             continue
         seen.add(key)
@@ -1033,7 +1037,9 @@ def replay(ctx, path):
 
 LEVEL_TEXT = ("Machine-checked Coq theorems over a statement-by-statement Gallina model of the punch codec (EncodePunchPacket/DecodePunchPacket, "
               "hex metadata, SHA-256 mask), the PunchPacketConn demultiplexer as a labelled transition system over its atomic sections "
-              "(AddPunchAttempt, RemovePunchAttempt, one datagram through the ReadFrom loop, event channels) and the ServerPuncher routing: "
+              "(AddPunchAttempt, RemovePunchAttempt, one datagram through the ReadFrom loop, event channels) and the ServerPuncher routing and "
+              "Respond life cycle (both registries keyed by the exact id string; after Respond has returned the id is in neither registry, late "
+              "packets of the finished attempt reach the reader unchanged and the id can be registered again): "
               "for every datagram, source address, registry history, event-buffer size and map-iteration order, a datagram is withheld iff it "
               "is a STUN binding response or decodes under a currently registered attempt (from a usable UDP source), otherwise it is returned "
               "unchanged with its address; encode/decode round trip for both types and every padding length <= 1024; nothing outside 33..1057 "
